@@ -1456,6 +1456,496 @@ Proof.
     + rewrite (I_count x C). lia.
     + intros u n Hu. rewrite upd_other; [apply (I_gq_role x C u n); rewrite Eq; cbn; auto|].
       intros ->. apply Hfr. apply (in_map fst) in Hu. exact Hu.
-  - admit.
-Admitted.
+  - assert (Hcx : chain x = qhead m 0 :: nx :: map snd rest) by (unfold chain; rewrite Eq; reflexivity).
+    assert (Hcx' : chain x' = nx :: map snd rest) by reflexivity.
+    assert (Hp' : forall u, u <> t -> priv x' u = priv x u).
+    { intros u Hu. unfold priv. cbn. rewrite !upd_other by exact Hu. reflexivity. }
+    assert (Hpt : priv x' t = priv x t ++ [qhead m 0]).
+    { unfold priv. cbn. rewrite upd_same, Hs. cbn. rewrite app_nil_r. reflexivity. }
+    assert (Hhp : forall u, ~ In (qhead m 0) (priv x u)).
+    { intros u Hu. apply (I_priv_chain x N u _ Hu). apply qhead_in_chain. }
+    assert (Hsub : forall n, In n (chain x') -> In n (chain x)).
+    { intros n' Hn'. rewrite Hcx. right. exact Hn'. }
+    assert (Hprv : forall u n', In n' (priv x' u) -> In n' (priv x u) \/ (u = t /\ n' = qhead m 0)).
+    { intros u n' Hn'. destruct (Nat.eq_dec u t) as [->|Hu]; [|rewrite (Hp' u Hu) in Hn'; auto].
+      rewrite Hpt in Hn'. apply in_app_or in Hn'. destruct Hn' as [Hn'|[<-|[]]]; auto. }
+    constructor.
+    + exact ND1'.
+    + rewrite Hcx'. exact ND2'.
+    + intros n' Hn'. apply (I_chain_nz x N). auto.
+    + cbn. apply (chain_ok_ext m); auto.
+    + cbn. intros u n' Hu. apply (I_gq_ent x N). rewrite Eq. cbn. auto.
+    + intros u n' Hn'. destruct (Hprv u n' Hn') as [H|[_ ->]]; [apply (I_priv_nz x N u n' H)|].
+      apply (I_chain_nz x N). apply qhead_in_chain.
+    + intros u. destruct (Nat.eq_dec u t) as [->|Hu]; [|rewrite (Hp' u Hu); apply (I_priv_nd x N)].
+      rewrite Hpt. apply NoDup_app_snoc; [apply (I_priv_nd x N)|apply Hhp].
+    + intros a b n' Hab Ha Hb. destruct (Hprv a n' Ha) as [Ha'|[Ea En]], (Hprv b n' Hb) as [Hb'|[Eb En']].
+      * apply (I_priv_disj x N a b n' Hab Ha' Hb').
+      * subst n'. apply (Hhp a Ha').
+      * subst n'. apply (Hhp b Hb').
+      * congruence.
+    + intros u n' Hn' Hic. destruct (Hprv u n' Hn') as [H|[_ ->]].
+      * apply (I_priv_chain x N u n' H). auto.
+      * rewrite Hcx' in Hic. apply Hhr. exact Hic.
+Qed.
+
+Lemma popping_no_debt f hh : popping x t f hh -> debt x = Some t -> False.
+Proof. intros (_ & Ho & _) Hd. apply (I_debt_own x (I_C x HI) t f Hd Ho). Qed.
+
+Lemma step_KfCopy h d p k :
+  stk (base x) t = stk_of t (PK (KfCopy h d) p k) -> L (view_of x t) (PK (KfCopy h d) p k) ->
+  X x t (PK (KfCopy h d) p k) -> Inv (gstep x t).
+Proof.
+  intros Hs HL HX. gred Hs. cbn. destruct HX as (f & Hdf & Hp).
+  assert (Hpn : In h (priv x t)) by (apply priv_extra; rewrite Hs; cbn; auto).
+  set (x' := mkI _ _ _ _ _ _ _).
+  constructor.
+  - intros u. destruct (Nat.eq_dec u t) as [->|N].
+    + exists (PK (KfOut h) p k). split; [cbn; apply upd_same|]. split.
+      * revert HL. unfold L, Lk. cbn. tauto.
+      * cbn. exists f. rewrite upd_same. split; [exact Hdf|exact Hp].
+    + revert u N. apply others_ok; [stk_other|view_other|].
+      intros u q Hu Hq HLq HXq.
+      assert (Hex : forall n', In n' (extra (stk (base x) u)) -> n' <> h).
+      { intros n' Hn'. apply (priv_other_ne u h n' Hu Hpn). apply priv_extra. exact Hn'. }
+      xcases q; try exact HXq; revert HXq; unfold X, Xk; cbn [x' base mem set_ndata ndata nnext qhead].
+      * rewrite upd_other; [tauto|]. apply Hex. rewrite Hq. cbn. auto.
+      * rewrite upd_other; [tauto|]. apply Hex. rewrite Hq. cbn. auto.
+      * intros (A & B). split; [exact A|]. rewrite upd_other; [exact B|].
+        apply (priv_chain_ne h _ Hpn). rewrite A. apply qhead_in_chain.
+      * rewrite upd_other; [tauto|]. apply Hex. rewrite Hq. cbn. auto.
+  - apply (I_slots x HI).
+  - apply debt_k_frame; [reflexivity|stk_other|]. intros Hd. destruct (popping_no_debt _ _ Hp Hd).
+  - apply (invC_frame x); try reflexivity. apply (I_C x HI).
+  - apply invN_frame2; try reflexivity.
+    + intros n' Hn'. cbn. split; [reflexivity|]. apply upd_other. apply (priv_chain_ne h n' Hpn Hn').
+    + intros u Hu. unfold priv. cbn. rewrite !upd_other by exact Hu. reflexivity.
+    + intros n'. unfold priv. cbn. rewrite !upd_same, Hs. cbn. tauto.
+    + pose proof (I_priv_nd x (I_N x HI) t) as ND. unfold priv in *. cbn. rewrite upd_same.
+      rewrite Hs in ND. exact ND.
+Qed.
+
+Lemma L_node v p w h :
+  L v p -> vha v = HPopped w -> h <> O ->
+  L (mkV (vfs v) h (vpd v) (vbl v) (vro v) (HNode w) (vul v) (vuc v) (vinq v)) p /\
+  (forall n pp k, p <> PW (WfNext n) pp k /\ p <> PW (WfXchg n) pp k) /\
+  (forall a n pp k, p <> PW (WfLink a n) pp k) /\ (forall kf pp k, p <> PK kf pp k) /\
+  (forall pp k, p <> PRd pp k) /\ vfn v = O.
+Proof.
+  destruct v as [fs fn pd bl ro ha ul uc inq]. cbn [vfs vfn vpd vbl vul vuc vinq vha vro].
+  intros HL -> Hh.
+  destruct p as [| | | | | | |[] ? ?|[] ? ?| |];
+  revert HL; unfold L, Lw, Lk, kbase, calm, done_log, preflip, resumed, prelink, wq, settled;
+  cbn [vfs vfn vpd vbl vro vha vul vuc vinq];
+  try (intros HL; exfalso; intuition discriminate);
+  (intros HL; split; [|repeat split; try discriminate; tauto]); intuition discriminate.
+Qed.
+
+Lemma step_KfOut h p k :
+  stk (base x) t = stk_of t (PK (KfOut h) p k) -> L (view_of x t) (PK (KfOut h) p k) ->
+  X x t (PK (KfOut h) p k) -> Inv (gstep x t).
+Proof.
+  intros Hs HL HX. destruct HX as (f & Hdf & Hp). change (ndata m h = fname f) in Hdf.
+  gred Hs. cbn -[tid_of_name]. rewrite Hdf, tid_of_fname.
+  pose proof (I_N x HI) as N.
+  assert (Hpn : In h (priv x t)) by (apply priv_extra; rewrite Hs; cbn; auto).
+  assert (Hhz : h <> O) by apply (I_priv_nz x N t h Hpn).
+  destruct Hp as (Hp1 & Hp2 & Hp3).
+  assert (Hft : f <> t). { intros ->. destruct HL as ((_ & Hr & _) & _). cbn in Hr. congruence. }
+  destruct (I_thr x HI f) as (q & Q1 & Q2 & Q3).
+  destruct (L_node _ q t h Q2 Hp1 Hhz) as (Q2' & Qa & Qb & Qc & Qd & Qfn). cbn in Qfn.
+  assert (Hexf : extra (stk (base x) f) = []).
+  { rewrite Q1. xcases q; try reflexivity; exfalso;
+    first [eapply (proj1 (Qa _ _ _)); reflexivity|eapply Qc; reflexivity|eapply (proj2 (Qa _ _ _)); reflexivity]. }
+  set (x' := mkI _ _ _ _ _ _ _).
+  assert (Hst : forall u, u <> t -> stk (base x') u = stk (base x) u) by stk_other.
+  constructor.
+  - intros u. destruct (Nat.eq_dec u t) as [->|Nu]; [|destruct (Nat.eq_dec u f) as [->|Nf]].
+    + exists (PK (KfState f) p k). split; [cbn; apply upd_same|]. split.
+      * revert HL. unfold L, Lk, kbase, calm. subst x'. vw. cbn. rewrite !upd_other by auto. tauto.
+      * cbn. unfold popping. cbn. rewrite upd_same. auto.
+    + exists q. rewrite (Hst f Nu). split; [exact Q1|]. split.
+      * eapply L_eqv; [|exact Q2']. unfold view_eqv, view_of. cbn. rewrite !upd_same. tauto.
+      * xcases q; try exact Q3; exfalso;
+        first [eapply Qb; reflexivity|eapply Qc; reflexivity|eapply Qd; reflexivity|
+               eapply (proj1 (Qa _ _ _)); reflexivity|eapply (proj2 (Qa _ _ _)); reflexivity].
+    + destruct (I_thr x HI u) as (r & R1 & R2 & R3). exists r.
+      rewrite (Hst u Nu). split; [exact R1|]. split.
+      * eapply L_eqv; [|exact R2]. unfold view_eqv, view_of. cbn. rewrite !upd_other by auto. tauto.
+      * assert (P : forall g hh, hh = HPopped u \/ hh = HNode u -> popping x u g hh -> popping x' u g hh).
+        { intros g hh Hh (P1 & P2 & P3). unfold popping. cbn. rewrite upd_other; [auto|].
+          intros ->. rewrite Hp1 in P1. destruct Hh as [-> | ->]; congruence. }
+        xcases r; try exact R3; revert R3; unfold X, Xk; cbn [x' base mem set_fnode ndata nnext qhead fstate].
+        -- intros (A & g & B & Q). split; [exact A|]. exists g. auto.
+        -- intros (g & B & Q). exists g. auto.
+        -- intros (g & B & Q). exists g. auto.
+        -- intros Q. auto.
+        -- intros (Q & B). auto.
+  - apply (I_slots x HI).
+  - apply debt_k_frame; [reflexivity|stk_other|]. intros Hd.
+    destruct (popping_no_debt f (HPopped t) (conj Hp1 (conj Hp2 Hp3)) Hd).
+  - apply (invC_frame x); try reflexivity. apply (I_C x HI).
+  - assert (Hpo : forall u, u <> t -> u <> f -> priv x' u = priv x u).
+    { intros u Hu Hf. unfold priv. cbn. rewrite !upd_other by auto. reflexivity. }
+    assert (Hpf : priv x' f = [h]).
+    { unfold priv. cbn. rewrite upd_same, upd_other, Hexf by auto.
+      destruct (Nat.eqb_spec h 0); [contradiction|reflexivity]. }
+    assert (Hpt : priv x t = priv x' t ++ [h]).
+    { unfold priv. cbn. rewrite upd_same, upd_other, Hs by auto. cbn. rewrite app_nil_r. reflexivity. }
+    assert (Hprv : forall u n', In n' (priv x' u) -> (u = f /\ n' = h) \/ (In n' (priv x u) /\ n' <> h)).
+    { intros u n' Hn'. destruct (Nat.eq_dec u f) as [->|Hf].
+      - rewrite Hpf in Hn'. destruct Hn' as [<-|[]]. auto.
+      - right. destruct (Nat.eq_dec u t) as [->|Hu].
+        + pose proof (I_priv_nd x N t) as ND. rewrite Hpt in ND. split; [rewrite Hpt; apply in_or_app; auto|].
+          intros ->. apply NoDup_remove_2 in ND. rewrite app_nil_r in ND. auto.
+        + rewrite (Hpo u Hu Hf) in Hn'. split; [exact Hn'|]. apply (priv_other_ne u h n' Hu Hpn Hn'). }
+    destruct N. constructor; try assumption.
+    + apply (chain_ok_ext m); auto.
+    + intros u n' Hn'. destruct (Hprv u n' Hn') as [[_ ->]|[H _]]; [exact Hhz|apply (I_priv_nz0 u n' H)].
+    + intros u. destruct (Nat.eq_dec u f) as [->|Hf]; [rewrite Hpf; constructor; [intros []|constructor]|].
+      destruct (Nat.eq_dec u t) as [->|Hu]; [|rewrite (Hpo u Hu Hf); auto].
+      pose proof (I_priv_nd0 t) as ND. rewrite Hpt in ND. apply NoDup_remove_1 in ND.
+      rewrite app_nil_r in ND. exact ND.
+    + intros a b n' Hab Ha Hb.
+      destruct (Hprv a n' Ha) as [[Ea En]|[Ha' Hna]], (Hprv b n' Hb) as [[Eb En']|[Hb' Hnb]]; try congruence.
+      apply (I_priv_disj0 a b n' Hab Ha' Hb').
+    + intros u n' Hn'. destruct (Hprv u n' Hn') as [[_ ->]|[H _]]; [apply (I_priv_chain0 t h Hpn)|].
+      apply (I_priv_chain0 u n' H).
+Qed.
+
+Definition wphase (p : ph) : Prop :=
+  (forall n pp k, p <> PW (WfNext n) pp k /\ p <> PW (WfXchg n) pp k) /\
+  (forall a n pp k, p <> PW (WfLink a n) pp k) /\ (forall kf pp k, p <> PK kf pp k) /\
+  (forall pp k, p <> PRd pp k).
+
+Lemma L_wake v p w :
+  L v p -> vha v = HNode w ->
+  wphase p /\
+  (vfs v <> ST_WAITING -> vbl v = false /\
+     L (mkV (vfs v) (vfn v) (S (vpd v)) (vbl v) (vro v) HWoken (vul v) (vuc v) (vinq v)) p) /\
+  (vfs v = ST_WAITING -> vbl v = true /\
+     L (mkV ST_READY (vfn v) (vpd v) false (vro v) HWoken (vul v) (vuc v) (vinq v)) p).
+Proof.
+  destruct v as [fs fn pd bl ro ha ul uc inq]. cbn [vfs vfn vpd vbl vul vuc vinq vha vro].
+  intros HL ->. unfold wphase.
+  destruct p as [| | | | | | |[] ? ?|[] ? ?| |];
+  revert HL; unfold L, Lw, Lk, kbase, calm, done_log, preflip, resumed, prelink, wq, settled;
+  cbn [vfs vfn vpd vbl vro vha vul vuc vinq];
+  try (intros HL; exfalso; intuition discriminate);
+  (intros HL; split; [repeat split; discriminate|]);
+  (split; intros Hfs; [|subst fs]); try (exfalso; intuition discriminate);
+  intuition (try discriminate; try congruence).
+Qed.
+
+Lemma deliver f p k (m0 : kmem) :
+  extra (stk (base x) t) = [] -> kbase (view_of x t) -> popping x t f (HNode t) ->
+  (m0 = m /\ fstate m f <> ST_WAITING) \/ (m0 = set_fstate m f ST_READY /\ fstate m f = ST_WAITING) ->
+  Inv (mk x t (wake m0 f) (stk_of t (PUY p k)) (role x) (upd (hand x) f HWoken) (gq x) (debt x)
+          (upd (ulog x) t (ulog x t ++ [GWake f])) (ucont x)).
+Proof.
+  intros Hex Hk Hp Hm. destruct Hp as (Hp1 & Hp2 & Hp3).
+  assert (Hft : f <> t). { intros ->. destruct Hk as (_ & Hr & _). cbn in Hr. congruence. }
+  destruct (I_thr x HI f) as (q & Q1 & Q2 & Q3).
+  destruct (L_wake _ q t Q2 Hp1) as ((Qa & Qb & Qc & Qd) & W1 & W2). cbn [view_of vfs vbl] in W1, W2.
+  set (x' := mk _ _ _ _ _ _ _ _ _ _).
+  assert (Hst : forall u, u <> t -> stk (base x') u = stk (base x) u) by stk_other.
+  assert (Hmem : ndata (wake m0 f) = ndata m /\ nnext (wake m0 f) = nnext m /\ word (wake m0 f) = word m /\
+                 qhead (wake m0 f) = qhead m /\ qtail (wake m0 f) = qtail m /\ fnode (wake m0 f) = fnode m /\
+                 cell (wake m0 f) = cell m /\ slots_ok (wake m0 f) /\
+                 forall u, u <> f -> fstate (wake m0 f) u = fstate m u /\ blocked (wake m0 f) u = blocked m u /\
+                                     pend (wake m0 f) u = pend m u).
+  { pose proof (I_slots x HI) as S. unfold wake.
+    destruct Hm as [[-> _]|[-> _]]; cbn [set_fstate blocked]; destruct (blocked m f); cbn;
+    repeat split; try reflexivity; try apply S; rewrite ?upd_other by assumption; reflexivity. }
+  destruct Hmem as (Ed & En & Ew & Eh & Et & Ef & Ec & Sl & Eo).
+  constructor.
+  - intros u. destruct (Nat.eq_dec u t) as [->|Nu]; [|destruct (Nat.eq_dec u f) as [->|Nf]].
+    + exists (PUY p k). split; [cbn; apply upd_same|]. split; [|exact I].
+      destruct (Eo t (not_eq_sym Hft)) as (F1 & F2 & F3).
+      revert Hk. unfold L, kbase, calm. unfold view_of. cbn [x' mk base mem role hand gq ulog ucont vfs vfn vpd vbl vro vha vul vuc vinq].
+      rewrite F1, F2, F3, Ef, upd_same, upd_other, Hp3 by auto. cbn. intuition eauto.
+    + exists q. rewrite (Hst f Nu). split; [exact Q1|]. split.
+      * destruct Hm as [[-> Hw]|[-> Hw]].
+        -- destruct (W1 Hw) as [Hb HL']. eapply L_eqv; [|exact HL'].
+           subst x'. unfold view_eqv, view_of, mk, wake. cbn. rewrite Hb. cbn.
+           rewrite ?upd_same, ?upd_other by auto. tauto.
+        -- destruct (W2 Hw) as [Hb HL']. eapply L_eqv; [|exact HL'].
+           subst x'. unfold view_eqv, view_of, mk, wake. cbn. rewrite Hb. cbn.
+           rewrite ?upd_same, ?upd_other by auto. tauto.
+      * xcases q; try exact I; exfalso;
+        first [eapply Qb; reflexivity|eapply Qc; reflexivity|eapply Qd; reflexivity|
+               eapply (proj1 (Qa _ _ _)); reflexivity|eapply (proj2 (Qa _ _ _)); reflexivity].
+    + destruct (I_thr x HI u) as (r & R1 & R2 & R3). exists r.
+      rewrite (Hst u Nu). split; [exact R1|]. split.
+      * destruct (Eo u Nf) as (F1 & F2 & F3). eapply L_eqv; [|exact R2]. unfold view_eqv, view_of.
+        cbn [x' mk base mem role hand gq ulog ucont vfs vfn vpd vbl vro vha vul vuc vinq].
+        rewrite F1, F2, F3, Ef, !upd_other by auto. tauto.
+      * assert (P : forall g hh, hh = HPopped u \/ hh = HNode u -> popping x u g hh ->
+                                 popping x' u g hh /\ g <> f).
+        { intros g hh Hh (P1 & P2 & P3). assert (g <> f).
+          { intros ->. rewrite Hp1 in P1. destruct Hh as [-> | ->]; congruence. }
+          unfold popping. cbn. rewrite !upd_other by auto. auto. }
+        xcases r; try exact R3; revert R3; unfold X, Xk;
+        cbn [x' mk base mem gq debt]; rewrite ?Ed, ?En, ?Eh, ?Ec; auto.
+        -- intros (A & g & B & Q). split; [exact A|]. exists g. split; [exact B|]. apply P; auto.
+        -- intros (g & B & Q). exists g. split; [exact B|]. apply P; auto.
+        -- intros (g & B & Q). exists g. split; [exact B|]. apply P; auto.
+        -- intros Q. apply P; auto.
+        -- intros (Q & B). destruct (P _ _ (or_intror eq_refl) Q) as [Q' Ng]. split; [exact Q'|].
+           destruct (Eo _ Ng) as (F1 & _). congruence.
+  - exact Sl.
+  - apply debt_k_frame; [reflexivity|stk_other|]. intros Hd.
+    destruct (popping_no_debt f (HNode t) (conj Hp1 (conj Hp2 Hp3)) Hd).
+  - apply (invC_frame x); try reflexivity; [|apply (I_C x HI)]. cbn. now rewrite Ew.
+  - apply (invN_frame x); cbn [x' mk base mem gq]; auto; [|apply (I_N x HI)].
+    intros u. cbn. destruct (Nat.eq_dec u t) as [->|N]; [rewrite upd_same; auto|now rewrite upd_other].
+Qed.
+
+Lemma step_KfState f p k :
+  stk (base x) t = stk_of t (PK (KfState f) p k) -> L (view_of x t) (PK (KfState f) p k) ->
+  X x t (PK (KfState f) p k) -> Inv (gstep x t).
+Proof.
+  intros Hs HL HX. gred Hs. cbn in HX.
+  destruct (fstate m f =? ST_WAITING) eqn:E.
+  - apply Z.eqb_eq in E. cbn. rewrite E. cbn.
+    local (PK (KfReady f) p k) Hs; [exact HL|split; [exact HX|exact E]|auto|].
+    intros Hd. destruct (popping_no_debt _ _ HX Hd).
+  - apply Z.eqb_neq in E. cbn. destruct (fstate m f =? ST_WAITING) eqn:E'; [apply Z.eqb_eq in E'; contradiction|].
+    cbn. apply (deliver f p k m); [rewrite Hs; reflexivity|apply HL|exact HX|auto].
+Qed.
+
+Lemma step_KfReady f p k :
+  stk (base x) t = stk_of t (PK (KfReady f) p k) -> L (view_of x t) (PK (KfReady f) p k) ->
+  X x t (PK (KfReady f) p k) -> Inv (gstep x t).
+Proof.
+  intros Hs HL HX. gred Hs. destruct HX as [HX E]. cbn.
+  apply (deliver f p k (set_fstate m f ST_READY)); [rewrite Hs; reflexivity|apply HL|exact HX|auto].
+Qed.
+
+Lemma step_inv : status_of (base x) t = SReady -> Inv (gstep x t).
+Proof.
+  intros St. unfold status_of in St.
+  destruct (Nat.ltb_spec t (nthr (base x))) as [Ht|Ht]; [|discriminate].
+  destruct (I_thr x HI t) as (p & Hs & HL & HX). rewrite Hs in St.
+  destruct p as [pr| |p k|p k|p k r|p k|p k|w p k|kf p k|p k|st p k].
+  - apply (step_PInit pr Hs HL).
+  - discriminate.
+  - apply (step_PLSub p k Ht Hs HL).
+  - apply (step_PTCas p k Ht Hs HL).
+  - apply (step_PCs p k r Hs HL).
+  - apply (step_PRd p k Hs HL HX).
+  - apply (step_PUAdd p k Ht Hs HL).
+  - destruct w.
+    + apply (step_WfSaving p k Hs HL).
+    + apply (step_WfData p k Hs HL).
+    + apply (step_WfNext n p k Hs HL HX).
+    + apply (step_WfXchg n p k Hs HL HX).
+    + apply (step_WfLink a n p k Hs HL HX).
+    + apply (step_WfY p k Hs HL).
+    + apply (step_WfYN st p k Hs HL).
+    + apply (step_WfSw p k Hs HL).
+    + apply (step_WfSd p k Hs HL).
+    + apply (step_WfMr p k Hs HL).
+    + apply (step_WfMf p k Hs HL).
+    + apply (step_WfAs p k Hs HL). cbn in St. destruct (blocked m t); [discriminate|reflexivity].
+    + apply (step_WfRe p k Hs HL).
+  - destruct kf.
+    + apply (step_KfHead p k Hs HL HX).
+    + apply (step_KfNext h p k Hs HL HX).
+    + apply (step_KfSet h nx p k Ht Hs HL HX).
+    + apply (step_KfSpY p k Hs HL HX).
+    + apply (step_KfSpN st p k Hs HL HX).
+    + apply (step_KfData h nx p k Hs HL HX).
+    + apply (step_KfCopy h d p k Hs HL HX).
+    + apply (step_KfOut h p k Hs HL HX).
+    + apply (step_KfState f p k Hs HL HX).
+    + apply (step_KfReady f p k Hs HL HX).
+  - apply (step_PUY p k Hs HL).
+  - apply (step_PUYN st p k Hs HL).
+Qed.
 End Steps.
+
+Theorem ireach_inv progs x : ireach progs x -> Inv x.
+Proof.
+  induction 1 as [|x t R IH St]; [apply inv_init|apply step_inv; assumption].
+Qed.
+
+(* ---------------- second invariant: an in-flight hand-off has a live popper ---------------- *)
+Definition J (x : ist) : Prop :=
+  forall f w, hand x f = HPopped w \/ hand x f = HNode w ->
+    role x f = Owner /\ exists kf p k, stk (base x) w = stk_of w (PK kf p k) /\ kpre kf = false.
+
+Lemma stk_gstep_other x t u : u <> t -> stk (base (gstep x t)) u = stk (base x) u.
+Proof.
+  intros Hu. rewrite gstep_base. unfold step.
+  destruct (kstep mc cret (mem (base x)) t (stk (base x) t)) as [[m1 e1] s1]. cbn. now apply upd_other.
+Qed.
+
+Lemma J_gen x t x' :
+  J x -> (forall u, u <> t -> stk (base x') u = stk (base x) u) ->
+  (forall f, hand x' f = hand x f \/ hand x' f = HNone \/ hand x' f = HWoken \/
+             (role x' f = Owner /\ (hand x' f = HPopped t \/ hand x' f = HNode t) /\
+              exists kf p k, stk (base x') t = stk_of t (PK kf p k) /\ kpre kf = false)) ->
+  (forall f, hand x' f = hand x f -> role x f = Owner ->
+             (exists w, hand x f = HPopped w \/ hand x f = HNode w) -> role x' f = Owner) ->
+  (forall f, hand x f = HPopped t \/ hand x f = HNode t -> hand x' f = hand x f -> role x f = Owner ->
+             exists kf p k, stk (base x') t = stk_of t (PK kf p k) /\ kpre kf = false) ->
+  J x'.
+Proof.
+  intros HJ Hst H1 H2 H3 f w Hp.
+  destruct (H1 f) as [E|[E|[E|(A & B & C)]]].
+  - rewrite E in Hp. destruct (HJ f w Hp) as [Ho K]. split; [apply H2; eauto|].
+    destruct (Nat.eq_dec w t) as [->|Nw]; [apply (H3 f); auto|rewrite (Hst w Nw); exact K].
+  - rewrite E in Hp. destruct Hp; discriminate.
+  - rewrite E in Hp. destruct Hp; discriminate.
+  - split; [exact A|]. assert (w = t) as -> by (destruct B as [B|B], Hp as [Hp|Hp]; congruence). exact C.
+Qed.
+
+(* phases where the ghost hand/role maps do not change and t is not a post-pop popper *)
+Lemma J_boring x t p :
+  Inv x -> J x -> stk (base x) t = stk_of t p ->
+  hand (gstep x t) = hand x -> role (gstep x t) = role x ->
+  (forall kf pp k, p = PK kf pp k -> kpre kf = true) ->
+  J (gstep x t).
+Proof.
+  intros HI HJ Hs Eh Er Hk. apply (J_gen x t); auto.
+  - intros u Hu. now apply stk_gstep_other.
+  - intros f. rewrite Eh. auto.
+  - intros f _ Ho _. now rewrite Er.
+  - intros f Hp _ _. destruct (HJ f t Hp) as [_ (kf & pp & k & E & K)].
+    rewrite Hs in E. apply stk_of_K_inj in E. rewrite (Hk _ _ _ E) in K. discriminate.
+Qed.
+
+Lemma stk_gstep_self x t :
+  stk (base (gstep x t)) t = snd (kstep mc cret (mem (base x)) t (stk (base x) t)).
+Proof.
+  rewrite gstep_base. unfold step.
+  destruct (kstep mc cret (mem (base x)) t (stk (base x) t)) as [[m1 e1] s1]. cbn. apply upd_same.
+Qed.
+
+Ltac ghs Hs := unfold gstep; rewrite Hs; reflexivity.
+Ltac jboring HI HJ Hs :=
+  apply (J_boring _ _ _ HI HJ Hs);
+  [ghs Hs | ghs Hs | intros ? ? ? E; first [discriminate E | injection E as <- _ _; reflexivity]].
+
+Lemma J_step x t : Inv x -> J x -> status_of (base x) t = SReady -> J (gstep x t).
+Proof.
+  intros HI HJ St. unfold status_of in St.
+  destruct (Nat.ltb_spec t (nthr (base x))) as [Ht|Ht]; [|discriminate].
+  destruct (I_thr x HI t) as (p & Hs & HL & HX). rewrite Hs in St.
+  assert (Hoth : forall u, u <> t -> stk (base (gstep x t)) u = stk (base x) u)
+    by (intros u Hu; now apply stk_gstep_other).
+  assert (HnK : (forall kf pp k, p <> PK kf pp k) -> forall f, hand x f = HPopped t \/ hand x f = HNode t -> False).
+  { intros Hn f Hp. destruct (HJ f t Hp) as [_ (kf & pp & k & E & _)]. rewrite Hs in E.
+    apply stk_of_K_inj in E. apply (Hn _ _ _ E). }
+  destruct p as [pr| |p k|p k|p k r|p k|p k|w p k|kf p k|p k|st p k].
+  - jboring HI HJ Hs.
+  - discriminate.
+  - (* LSub *) destruct HL as (Hc & _).
+    apply (J_gen x t); auto.
+    + intros f. unfold gstep. rewrite Hs. cbn. unfold upd. destruct (Nat.eqb f t); auto.
+    + intros f _ Ho (w & Hw). unfold gstep. rewrite Hs. cbn. rewrite upd_other; [exact Ho|].
+      intros ->. destruct Hw as [Hw|Hw]; destruct Hc as (_ & _ & _ & _ & [S|S]); cbn in S; congruence.
+    + intros f Hp. exfalso. apply (HnK ltac:(discriminate) f Hp).
+  - (* TCas *) destruct HL as (Hc & _).
+    apply (J_gen x t); auto.
+    + intros f. unfold gstep. rewrite Hs. cbn. destruct (word (mem (base x)) 0 =? 1); cbn; auto.
+      unfold upd. destruct (Nat.eqb f t); auto.
+    + intros f _ Ho (w & Hw). unfold gstep. rewrite Hs. cbn.
+      destruct (word (mem (base x)) 0 =? 1); cbn; [|exact Ho]. rewrite upd_other; [exact Ho|].
+      intros ->. destruct Hw as [Hw|Hw]; destruct Hc as (_ & _ & _ & _ & [S|S]); cbn in S; congruence.
+    + intros f Hp. exfalso. apply (HnK ltac:(discriminate) f Hp).
+  - jboring HI HJ Hs.
+  - jboring HI HJ Hs.
+  - (* UAdd *) destruct HL as (Hc & _).
+    apply (J_gen x t); auto.
+    + intros f. unfold gstep. rewrite Hs. cbn. auto.
+    + intros f _ Ho (w & Hw). unfold gstep. rewrite Hs. cbn. rewrite upd_other; [exact Ho|].
+      intros ->. destruct Hw as [Hw|Hw]; destruct Hc as (_ & _ & _ & _ & [S|S]); cbn in S; congruence.
+    + intros f Hp. exfalso. apply (HnK ltac:(discriminate) f Hp).
+  - destruct w; jboring HI HJ Hs.
+  - assert (Hpost : forall kf', kpre kf' = false ->
+              stk (base (gstep x t)) t = stk_of t (PK kf' p k) ->
+              exists kf0 p0 k0, stk (base (gstep x t)) t = stk_of t (PK kf0 p0 k0) /\ kpre kf0 = false)
+      by (intros kf' K E; exists kf', p, k; auto).
+    destruct kf.
+    + jboring HI HJ Hs.
+    + jboring HI HJ Hs.
+    + (* KSetHead *)
+      assert (Est : stk (base (gstep x t)) t = stk_of t (PK (KfData h nx) p k))
+        by (rewrite stk_gstep_self, Hs; reflexivity).
+      apply (J_gen x t); auto.
+      * intros f. unfold gstep at 1 2 3 4 5. rewrite Hs. cbn -[tid_of_name gstep]. unfold upd.
+        destruct (Nat.eqb f _); auto. right. right. right. split; [reflexivity|]. split; [auto|].
+        apply (Hpost (KfData h nx)); auto.
+      * intros f _ Ho _. unfold gstep. rewrite Hs. cbn -[tid_of_name]. unfold upd.
+        destruct (Nat.eqb f _); auto.
+      * intros f Hp. destruct (HJ f t Hp) as [_ (kf & pp & k0 & E & K)].
+        rewrite Hs in E. apply stk_of_K_inj in E. injection E as <- _ _. discriminate.
+    + jboring HI HJ Hs.
+    + jboring HI HJ Hs.
+    + (* KData *)
+      assert (Est : stk (base (gstep x t)) t = stk_of t (PK (KfCopy h (ndata (mem (base x)) nx)) p k))
+        by (rewrite stk_gstep_self, Hs; reflexivity).
+      apply (J_gen x t); auto.
+      * intros f. left. ghs Hs.
+      * intros f _ Ho _. replace (role (gstep x t)) with (role x) by (symmetry; ghs Hs). exact Ho.
+      * intros f _ _ _. apply (Hpost (KfCopy h (ndata (mem (base x)) nx))); auto.
+    + (* KCopy *)
+      assert (Est : stk (base (gstep x t)) t = stk_of t (PK (KfOut h) p k))
+        by (rewrite stk_gstep_self, Hs; reflexivity).
+      apply (J_gen x t); auto.
+      * intros f. left. ghs Hs.
+      * intros f _ Ho _. replace (role (gstep x t)) with (role x) by (symmetry; ghs Hs). exact Ho.
+      * intros f _ _ _. apply (Hpost (KfOut h)); auto.
+    + (* KOut *)
+      destruct HX as (f0 & Hd0 & Hp1 & Hp2 & Hp3). change (ndata (mem (base x)) h = fname f0) in Hd0.
+      assert (Est : stk (base (gstep x t)) t = stk_of t (PK (KfState f0) p k)).
+      { rewrite stk_gstep_self, Hs. cbn -[tid_of_name]. rewrite Hd0, tid_of_fname. reflexivity. }
+      assert (Eh : hand (gstep x t) = upd (hand x) f0 (HNode t)).
+      { unfold gstep. rewrite Hs. cbn -[tid_of_name]. rewrite Hd0, tid_of_fname. reflexivity. }
+      assert (Er : role (gstep x t) = role x) by ghs Hs.
+      apply (J_gen x t); auto.
+      * intros f. rewrite Eh, Er. unfold upd. destruct (Nat.eqb_spec f f0) as [->|N]; auto.
+        right. right. right. split; [exact Hp2|]. split; [auto|]. apply (Hpost (KfState f0)); auto.
+      * intros f _ Ho _. now rewrite Er.
+      * intros f _ _ _. apply (Hpost (KfState f0)); auto.
+    + (* KState *)
+      destruct HX as (Hp1 & Hp2 & Hp3). cbn in Hp1, Hp2, Hp3.
+      destruct (fstate (mem (base x)) f =? ST_WAITING) eqn:E.
+      * assert (Est : stk (base (gstep x t)) t = stk_of t (PK (KfReady f) p k))
+          by (rewrite stk_gstep_self, Hs; cbn; rewrite E; reflexivity).
+        assert (Eh : hand (gstep x t) = hand x) by (unfold gstep; rewrite Hs; cbn; rewrite E; reflexivity).
+        assert (Er : role (gstep x t) = role x) by (unfold gstep; rewrite Hs; cbn; rewrite E; reflexivity).
+        apply (J_gen x t); auto.
+        -- intros g. rewrite Eh. auto.
+        -- intros g _ Ho _. now rewrite Er.
+        -- intros g _ _ _. apply (Hpost (KfReady f)); auto.
+      * assert (Eh : hand (gstep x t) = upd (hand x) f HWoken) by (unfold gstep; rewrite Hs; cbn; rewrite E; reflexivity).
+        assert (Er : role (gstep x t) = role x) by (unfold gstep; rewrite Hs; cbn; rewrite E; reflexivity).
+        apply (J_gen x t); auto.
+        -- intros g. rewrite Eh. unfold upd. destruct (Nat.eqb g f); auto.
+        -- intros g _ Ho _. now rewrite Er.
+        -- intros g Hg Eg Ho. exfalso. assert (g = f) as -> by apply (I_own1 x (I_C x HI) g f Ho Hp2).
+           rewrite Eh, upd_same in Eg. rewrite <- Eg in Hg. destruct Hg; discriminate.
+    + (* KReady *)
+      destruct HX as ((Hp1 & Hp2 & Hp3) & _). cbn in Hp1, Hp2, Hp3.
+      assert (Eh : hand (gstep x t) = upd (hand x) f HWoken) by ghs Hs.
+      assert (Er : role (gstep x t) = role x) by ghs Hs.
+      apply (J_gen x t); auto.
+      * intros g. rewrite Eh. unfold upd. destruct (Nat.eqb g f); auto.
+      * intros g _ Ho _. now rewrite Er.
+      * intros g Hg Eg Ho. exfalso. assert (g = f) as -> by apply (I_own1 x (I_C x HI) g f Ho Hp2).
+        rewrite Eh, upd_same in Eg. rewrite <- Eg in Hg. destruct Hg; discriminate.
+  - jboring HI HJ Hs.
+  - jboring HI HJ Hs.
+Qed.
+
+Lemma J_init progs : J (iinit progs).
+Proof. intros f w [H|H]; discriminate. Qed.
+
+Theorem ireach_J progs x : ireach progs x -> J x.
+Proof.
+  induction 1 as [|x t R IH St]; [apply J_init|].
+  apply J_step; auto. apply (ireach_inv progs x R).
+Qed.
